@@ -18,6 +18,7 @@ func init() {
 	vHarnesses["vH_C18_wf_8_9_8_10"] = vH_C18_wf_8_9_8_10
 	vHarnesses["vH_C18_wf_8_8_16_8"] = vH_C18_wf_8_8_16_8
 	vHarnesses["vH_C18_wf_init_2chunks"] = vH_C18_wf_init_2chunks
+	vHarnesses["vH_C18_wf_len_lt_cap"] = vH_C18_wf_len_lt_cap
 	vHarnesses["vH_C18_wf_8_8_resize"] = vH_C18_wf_8_8_resize
 	vHarnesses["vH_C18_trunc_8_16"] = vH_C18_trunc_8_16
 	vHarnesses["vH_C18_malformed_16"] = vH_C18_malformed_16
@@ -139,17 +140,26 @@ func vH_C18_wf_24()           { vC18WellFormed([]int{24}, nil, 4, 64) }         
 func vH_C18_wf_8_9_8_10()     { vC18WellFormed([]int{8, 9, 8, 10}, []int{2, 1, 2, 1}, 2, 64) }      // two chunks
 func vH_C18_wf_8_8_16_8()     { vC18WellFormed([]int{8, 8, 16, 8}, []int{2, 1, 2, 1}, 2, 64) }      // second moof as long as the first chunk
 func vH_C18_wf_init_2chunks() { vC18WellFormed([]int{8, 8, 8, 8, 8}, []int{0, 2, 1, 2, 1}, 2, 64) } // init + two chunks
-func vH_C18_wf_8_8_resize()   { vC18WellFormed([]int{8, 8}, []int{2, 1}, 2, 0) }                    // buffer must grow
+func vH_C18_wf_len_lt_cap() {
+	// a box ends inside the spare capacity of the caller's buffer, the next one exceeds it
+	vC18WellFormedBuf([]int{8, 8, 16}, []int{3, 2, 1}, 2, make([]byte, 8, 16))
+}
+func vH_C18_wf_8_8_resize() { vC18WellFormed([]int{8, 8}, []int{2, 1}, 2, 0) } // buffer must grow
 
 // vC18WellFormed: for a well-formed stream and any fragmentation of the reads, the concatenated
 // callback data equals the input, a callback ends at the end of every mdat box, trailing bytes are
 // delivered at end of input, and the init flag is set exactly when a moov box was seen.
 func vC18WellFormed(sizes []int, fixedTypes []int, maxFrag, bufLen int) {
+	vC18WellFormedBuf(sizes, fixedTypes, maxFrag, make([]byte, bufLen))
+}
+
+// the caller's buffer may have spare capacity beyond its length (make([]byte, len, cap))
+func vC18WellFormedBuf(sizes []int, fixedTypes []int, maxFrag int, buf []byte) {
 	vReset()
 	data, types := vBuildStream(sizes, fixedTypes)
 	L := len(data)
 	r := &vReader{data: data, maxFrag: maxFrag, eofWithData: vBool("eofWithData"), failAt: -1}
-	p := NewMP4ChunkParser(r, make([]byte, bufLen), vCallback)
+	p := NewMP4ChunkParser(r, buf, vCallback)
 	err := p.Parse()
 	vAssert("C18.wf.no-error", err == nil)
 	vAssert("C18.wf.all-bytes-delivered", vOutLen == L)
